@@ -36,8 +36,8 @@ ASSUMPTIONS = [
     'sampling: texts, dialects and (for longer inputs) schedules are sampled from a seeded PRNG, not enumerated',
 ]
 
-ALPHABET = ['a', '"', ',', '\n', '\r', '#', ' ', ';', 'b', 'é', '€', '\U0001F600', '﻿', '\t']
-WEIGHTS = [10, 9, 8, 9, 9, 4, 3, 2, 3, 2, 2, 1, 1, 1]
+ALPHABET = ['a', '"', ',', '\n', '\r', '#', ' ', ';', 'b', 'é', '€', '\U0001F600', '﻿', '\t', '\ufffd']
+WEIGHTS = [10, 9, 8, 9, 9, 4, 3, 2, 3, 2, 2, 1, 1, 1, 1]
 SNIPPETS = ['\r\n', '""', '"\n"', '"\r\n', '\n#', '\r#', 'a,b', '",', ',"', '\n\n', '\r\r', '"a\nb"', '#x\n', '﻿', '\r\n\r\n', '"\r"']
 ASCII_ALPHABET = ['a', '"', ',', '\n', '\r', '#', ' ']
 
